@@ -1,6 +1,7 @@
 import AggkitModel.Model.Certificate
 import AggkitModel.Proofs.Bytes
 import AggkitModel.Properties.C19
+import AggkitModel.Generated.CertFacts
 /-
 C10 — the signature commits to exactly what is sent and stored.
 Proved here: the commitments are injective in every field they cover (so "changing any covered field changes the
@@ -291,5 +292,9 @@ example : KLen' demoK ∧ KInj demoK := by
   intro a b h
   simp only [demoK, List.cons.injEq, and_true] at h
   exact encList_inj a b h
+
+/-- what "the configured signer" is, read from the source (regenerated on every run): both flows build their certificate
+    signer from the aggsender's own key configuration -/
+theorem C10_code_facts : Aggkit.Gen.CertFacts.flowSignerConfigs = ["cfg.AggsenderPrivateKey", "cfg.AggsenderPrivateKey"] := by decide
 
 end Aggkit.Certificate
